@@ -10,6 +10,7 @@ import (
 	"bytes"
 	"errors"
 	"runtime"
+	"strconv"
 	"strings"
 	"fmt"
 	"io"
@@ -112,6 +113,7 @@ type Backend struct {
 	nxfer int
 	busy  int // Data callbacks in flight
 	inRd  int // of those, how many are inside r.Read right now
+	rdG   map[int64]int // goroutine ids currently inside r.Read
 
 	// Static shape of the sessions handed out.
 	AuthCapable bool
@@ -208,6 +210,10 @@ func (b *Backend) Quiet() bool {
 	b.mu.Lock()
 	active := b.busyLocked()
 	inRd := b.inRd
+	ids := make(map[int64]bool, len(b.rdG))
+	for g := range b.rdG {
+		ids[g] = true
+	}
 	b.mu.Unlock()
 	if active == 0 {
 		return true
@@ -215,13 +221,25 @@ func (b *Backend) Quiet() bool {
 	if active > inRd {
 		return false
 	}
-	return readersBlocked()
+	return readersBlocked(ids)
+}
+
+func curGID() int64 {
+	var buf [64]byte
+	n := runtime.Stack(buf[:], false)
+	// "goroutine 123 ["
+	f := bytes.Fields(buf[:n])
+	if len(f) < 2 {
+		return 0
+	}
+	id, _ := strconv.ParseInt(string(f[1]), 10, 64)
+	return id
 }
 
 var stackBuf = make([]byte, 4<<20)
 var stackMu sync.Mutex
 
-func readersBlocked() bool {
+func readersBlocked(ids map[int64]bool) bool {
 	stackMu.Lock()
 	defer stackMu.Unlock()
 	n := runtime.Stack(stackBuf, true)
@@ -234,7 +252,15 @@ func readersBlocked() bool {
 		} else {
 			g, dump = dump[:end], dump[end+2:]
 		}
-		if !bytes.Contains(g, []byte("rec.readPlan")) {
+		if !bytes.HasPrefix(g, []byte("goroutine ")) {
+			continue
+		}
+		sp := bytes.IndexByte(g[10:], ' ')
+		if sp < 0 {
+			continue
+		}
+		id, _ := strconv.ParseInt(string(g[10:10+sp]), 10, 64)
+		if !ids[id] {
 			continue
 		}
 		// goroutine 12 [select]:  /  [sync.Cond.Wait, 2 minutes]:
@@ -567,12 +593,20 @@ type countingReader struct {
 }
 
 func (c *countingReader) Read(p []byte) (int, error) {
+	gid := curGID()
 	c.b.mu.Lock()
 	c.b.inRd++
+	if c.b.rdG == nil {
+		c.b.rdG = map[int64]int{}
+	}
+	c.b.rdG[gid]++
 	c.b.mu.Unlock()
 	n, err := c.r.Read(p)
 	c.b.mu.Lock()
 	c.b.inRd--
+	if c.b.rdG[gid]--; c.b.rdG[gid] <= 0 {
+		delete(c.b.rdG, gid)
+	}
 	c.b.mu.Unlock()
 	return n, err
 }
